@@ -4947,7 +4947,10 @@ bool RemapCompareLess(FunctionRemap *in1, FunctionRemap *in2) {
 
   // ok maybe something to do with return strength..
 
-  return false;
+  // The remaps come out of a set ordered by address; fall back on the
+  // signature so that the order in which equally ranked overloads are tried
+  // (and written) does not depend on the memory layout of this process.
+  return in1->_function_signature < in2->_function_signature;
 }
 
 /**
